@@ -69,7 +69,13 @@ func main() {
 	knownPath := flag.String("known", "/verif/KNOWN_FINDINGS.txt", "known findings file")
 	dump := flag.Bool("dump", false, "print all obligations")
 	flag.Parse()
-	if t := os.Getenv("VERIF_TIER"); t == "quick" || t == "thorough" {
+	tierSet := false
+	flag.Visit(func(f *flag.Flag) {
+		if f.Name == "tier" {
+			tierSet = true
+		}
+	})
+	if t := os.Getenv("VERIF_TIER"); !tierSet && (t == "quick" || t == "thorough") {
 		*tier = t
 	}
 	seed := 0
